@@ -177,6 +177,9 @@ func c13(c *Check) {
 	c.Rule("C13/reader-tokenisation", "a reader that tokenises iterator keys with an unbounded strings.Split on \"/\" must not range over a family with a binary (big-endian height) component: a 0x2f byte inside the height changes the element count / positions", 4)
 	tokenisationRule(c, "C13/reader-tokenisation", fams)
 
+	c.Rule("C13/fresh-decode-target", "a value decoded inside an iterator loop is decoded into a target allocated in that loop iteration (protobuf Unmarshal appends to repeated fields of a reused target, so a hoisted target accumulates the entries of earlier iterations into later ones)", 3)
+	freshDecodeRule(c, "C13/fresh-decode-target")
+
 	c.Rule("C13/genesis-fields", "every field of each module GenesisState is populated by ExportGenesis and consumed by InitGenesis (rvesting From/InitReward are init-only funding instructions, audited)", 12)
 	genesisFields(c, "C13/genesis-fields", "x/xibc/types.GenesisState", "x/xibc.ExportGenesis", "x/xibc.InitGenesis", nil)
 	genesisFields(c, "C13/genesis-fields", "x/xibc/core/client/types.GenesisState", "x/xibc/core/client.ExportGenesis", "x/xibc/core/client.InitGenesis", nil)
@@ -381,4 +384,35 @@ func derefT(t types.Type) types.Type {
 		return p.Elem()
 	}
 	return t
+}
+
+// freshDecodeRule: see C13/fresh-decode-target.
+func freshDecodeRule(c *Check, rule string) {
+	for fn := range c.P.AllFuncs {
+		if !inScope(fn) || len(fn.Blocks) == 0 {
+			continue
+		}
+		fa := c.P.FA(fn)
+		for _, cs := range c.P.CallsIn(fn) {
+			if !strings.Contains(cs.Name, "Unmarshal") || strings.Contains(cs.Name, "UnmarshalInterface") {
+				continue
+			}
+			b := cs.Ins.Block()
+			if !fa.inCycle(b) {
+				continue
+			}
+			cc := cs.Ins.Common()
+			if len(cc.Args) == 0 {
+				continue
+			}
+			target := stripConv(cc.Args[len(cc.Args)-1])
+			al, ok := target.(*ssa.Alloc)
+			if !ok {
+				continue
+			}
+			// is the allocation inside the same cycle?
+			inLoop := fa.reachFrom(b)[al.Block().Index] && fa.reachFrom(al.Block())[b.Index]
+			c.Req(inLoop, rule, funcName(fn)+": "+cs.Name[strings.LastIndex(cs.Name, ".")+1:]+" target", cs.Ins.Pos(), "allocated per iteration", "decode target is allocated outside the loop and reused across iterations: repeated fields accumulate, so later entries carry the data of earlier ones (exported state differs from stored state)")
+		}
+	}
 }
